@@ -22,11 +22,12 @@ where
 /// Deepest nesting of lists/dictionaries accepted. KRPC messages nest at most 4 levels.
 const MAX_DEPTH: usize = 32;
 
-/// Walks the first bencoded value in `bytes` and rejects it if a string declares more bytes than
-/// remain in the input or if it nests too deeply. The decoder allocates the declared length of
-/// every string up front and recurses once per nesting level, so neither can be left to it (the
-/// input comes straight from the network). Anything else that is malformed is left for the
-/// decoder to report.
+/// Walks the bencoded tokens in `bytes` and rejects the input if a string declares more bytes than
+/// remain or if it nests too deeply. The decoder allocates the declared length of every string up
+/// front and recurses once per nesting level, so neither can be left to it (the input comes
+/// straight from the network). The walk does not stop at the end of the first value: a struct
+/// that is given as a list makes the decoder read on into whatever follows the message. Anything
+/// else that is malformed is left for the decoder to report.
 fn validate(bytes: &[u8]) -> Result<(), Error> {
     let mut pos = 0;
     let mut depth = 0usize;
@@ -66,12 +67,8 @@ fn validate(bytes: &[u8]) -> Result<(), Error> {
                 }
                 continue;
             }
-            b'e' if depth > 0 => depth -= 1,
+            b'e' => depth = depth.saturating_sub(1),
             _ => return Ok(()),
-        }
-
-        if depth == 0 {
-            return Ok(());
         }
     }
 }
